@@ -2,8 +2,15 @@
 Scenario :  <jump 0|1> <n> desc*n op*
   desc   :  :p $name (plain allocator object) | :k j (AccountingTestMemoryAllocator around object j) | :l j (MemoryLeakAllocator around object j)
   op     :  :a e al addr size | :f e al addr|~ | :r al addr|~ newaddr size | :w addr $bytes | :t 0|1
+            | :A form al addr size | :F form al addr|~   (every form of operator new / delete and every malloc wrapper, see below)
             | :e 0|1|2|3 (detector disable / enable / startChecking / stopChecking) | :s 0|1 (decrease / increaseAllocationStage)
-            | :m 0|1 (default / thread-safe overloads installed)
+            | :m 0|1 (turnOnDefaultNotThreadSafe / turnOnThreadSafeNewDeleteOverloads called)
+            | :o 0|1|2|3|4 (turnOff / turnOnDefaultNotThreadSafe / turnOnThreadSafe / saveAndDisable / restoreNewDeleteOverloads called)
+  :A form:  0 new(n) 1 new(n,nothrow) 2 new(n,file,int) 3 new(n,file,size_t) 4-7 the same of new[] 8 cpputest_malloc 9 cpputest_malloc_location
+            a cpputest_calloc b cpputest_strdup c cpputest_strndup
+  :F form:  0 delete(p) 1 delete(p,size_t) 2 delete(p,nothrow) 3 delete(p,file,int) 4 delete(p,file,size_t) 5-9 the same of delete[]
+            a cpputest_free b cpputest_free_location
+  Every scenario starts in a fresh process image: the function pointers behind the entry points as their static initialisers leave them.
   e      :  0 operator new/delete, 1 new[]/delete[], 2 cpputest_malloc/free(/realloc), 3 MemoryLeakAllocator::alloc_memory/free_memory,
             4 / 5 MemoryLeakDetector::allocMemory/deallocMemory called directly with allocatNodesSeperately = false / true
   The detector starts as its constructor leaves it: period disabled, stage 0, type checking on.
@@ -39,8 +46,16 @@ RULE = ("(a) guard sweep: block sizes 0..64, 255, 256, 4095 x every guard positi
         "direct inline/separate record} x sizes {0,1,2,3,7,8,64,255,1000} x outcome {paired, mismatch, guard changed, stale, interior} x type "
         "checking switched between allocation and release x default/thread-safe overloads; every scenario of (a)-(e) is additionally run "
         "under a random environment (period/stage/overload switches inserted at random points; one third stay in "
-        "the fresh, disabled detector).  "
-        "non-trivial = at least one release of a non-NULL address")
+        "the fresh, disabled detector); (g) entry points and overload histories: every allocating form (operator new / new[] x {plain, "
+        "nothrow, file+int line, file+size_t line}, cpputest_malloc, _malloc_location, _calloc, _strdup, _strndup) x every releasing "
+        "form (operator delete / delete[] x {plain, sized, nothrow, file+int line, file+size_t line}, cpputest_free, _free_location, "
+        "cpputest_realloc) x 23 switch histories before the allocation (none = the static initial wiring; turnOnDefault; "
+        "turnOnThreadSafe; off and back on; thread-safe then default and the reverse; saveAndDisable/restore after each of them, "
+        "nested, with a switch inside the save, restore without save) x switch histories between allocation and release x type "
+        "checking on/off (quick: half of the product, full for the nothrow forms; thorough: all), allocator objects of both sides "
+        "varied (wrappers, equal names), thirteen blocks of thirteen forms alive at once released in rotated order, random histories "
+        "with forms and switches mixed in; every scenario runs in a fresh process image, so the pointers start as their static "
+        "initialisers leave them.  non-trivial = at least one release of a non-NULL address")
 ASSUMPTIONS = ["the releasing allocator object is alive (a destroyed allocator makes deallocMemory skip every check: static destruction order escape hatch)",
                "the underlying allocator hands out regions that do not overlap live blocks (arena slots); writes of the user program stay "
                "inside one outstanding block: user bytes, guard bytes, first padding byte",
@@ -49,6 +64,10 @@ ASSUMPTIONS = ["the releasing allocator object is alive (a destroyed allocator m
                "current allocator of new/delete/malloc (that would track every block twice)",
                "cpputest_realloc succeeds at the platform level (failures are property C05)",
                "heap poisoning compiled in (CPPUTEST_DISABLE_HEAP_POISON not defined: it removes the clause by configuration)",
+               "an operator new / delete / malloc-family entry point is judged only while the new/delete overloads are installed (by the "
+               "documented meaning of turnOff / turnOnDefaultNotThreadSafe / turnOnThreadSafe / saveAndDisable / restoreNewDeleteOverloads); with the "
+               "overloads off nothing reaches the detector and no block is tracked",
+               "save_counter does not overflow (fewer than 2^31 nested saves)",
                "LP64"]
 LEVEL_TEXT = ("Machine-checked (Coq) theorems over an executable model of MemoryLeakDetector::deallocMemory / reallocMemory / checkForCorruption / "
               "matchingAllocation / validMemoryCorruptionInformation / addMemoryCorruptionInformation / invalidateMemory and the actualAllocator() "
@@ -60,8 +79,19 @@ LEVEL_TEXT = ("Machine-checked (Coq) theorems over an executable model of Memory
               "the record -- all of it for states with arbitrary period, allocation stage and record stamps; period_independent: two histories "
               "that differ only in enable/disable/startChecking/stopChecking/allocation-stage/overload switches (and in the period, stage "
               "and stamps they start from) yield the same reports, poison observations and totals, item for item; "
-              "and run_meets_spec: the model satisfies the model-free oracle on every valid scenario. Tied to the code by a "
-              "differential run through the real global operator delete/delete[], cpputest_free/realloc and MemoryLeakAllocator on a private "
+              "the plugin layer in front of the detector (eleven function pointers, the three sets of functions they can hold, the static "
+              "initial wiring, turnOff / turnOnDefault / turnOnThreadSafe / saveAndDisable / restore with the save counter, the pointer each "
+              "global operator new / delete form and each malloc wrapper calls, the current allocator each installed function hands the "
+              "detector) as a state machine over the switch history: wiring_coherent (after EVERY list of switches each pointer holds the "
+              "function of its own name, all eleven from one set, the saved pointers likewise), entry_family (hence each of the 13 "
+              "allocating and 12 releasing forms reaches the detector with the allocator of the family the language gives it), "
+              "form_pair_exact / form_pair_by_family (block allocated with form a after any history, released with form r after any "
+              "further history: mismatch iff type checking is on and family(a) <> family(r), one callback iff reported, the record "
+              "carries the allocator of family(a)), lowering_is_property_view; "
+              "and run_meets_spec: the model (plugin layer + detector) satisfies the model-free oracle on every valid scenario of the "
+              "extended language. Tied to the code by a "
+              "differential run through every real global operator new/new[]/delete/delete[] form, cpputest_malloc/calloc/strdup/strndup/"
+              "free/realloc and MemoryLeakAllocator, in a fresh process image per scenario under the real overload switches, on a private "
               "detector left in exactly the period/stage the scenario's history puts it in (fresh = disabled), with the extracted spec judging "
               "the implementation; guard pattern, guard size and poison byte are re-read from the source.")
 LEVEL_NOTE = ("Modelled, not verified: the C++ itself. Outside the model: a destroyed releasing allocator (hasBeenDestroyed skips all checks), "
@@ -87,7 +117,7 @@ def parse(s):
             ds.append((t[i][1:], int(t[i + 1], 16)))
         i += 2
     ops = []
-    ar = {":a": 4, ":f": 3, ":r": 4, ":w": 2, ":t": 1, ":e": 1, ":s": 1, ":m": 1}
+    ar = {":a": 4, ":f": 3, ":r": 4, ":w": 2, ":t": 1, ":e": 1, ":s": 1, ":m": 1, ":A": 4, ":F": 3, ":o": 1}
     while i < len(t):
         k = ar[t[i]]
         ops.append(t[i:i + 1 + k])
@@ -118,6 +148,11 @@ class Sim:
         self.period, self.stage, self.ts = 0, 0, 0
         self.stamp = {}      # addr -> (period, stage, tc) at allocation
         self.env_at_release = []
+        # which overloads are installed, by the documented meaning of the switches: 0 off, 1 default, 2 thread-safe
+        self.ov, self.ov_saved, self.ov_count = 1, 1, 0
+        self.ov_hist = []    # switches so far (classify)
+        self.form_log = []   # (allocating form | None, releasing form | "r", switches before the allocation, switches between) per release of a live block
+        self.alloc_info = {}  # addr -> (form, number of switches at allocation, initial wiring still untouched)
 
     def actual(self, i):
         while self.ds[i][0] != "p":
@@ -172,7 +207,7 @@ class Sim:
     def free(self, e, al, p):
         assert self.alloc_ok(e, al)
         c = self.expect(self.fam(e, al), p)
-        self.env_at_release.append((self.stamp.get(p) if p in self.blocks else None, (self.period, self.stage, self.tc), self.ts))
+        self.env_at_release.append((self.stamp.get(p) if p in self.blocks else None, (self.period, self.stage, self.tc), int(self.ov == 2)))
         if p is not None:
             self.blocks.pop(p, None)
         return c
@@ -180,7 +215,7 @@ class Sim:
     def realloc(self, al, p, na, n):
         assert self.alloc_ok(2, al)
         c = self.expect(self.fam(2, al), p)
-        self.env_at_release.append((self.stamp.get(p) if p in self.blocks else None, (self.period, self.stage, self.tc), self.ts))
+        self.env_at_release.append((self.stamp.get(p) if p in self.blocks else None, (self.period, self.stage, self.tc), int(self.ov == 2)))
         if p is not None:
             self.blocks.pop(p, None)
         created = c == 0 or (c in (2, 3) and not self.jump)
@@ -190,14 +225,61 @@ class Sim:
             self.stamp[na] = (self.period, self.stage, self.tc)
         return c
 
+    def switch(self, k):
+        self.ov_hist.append(k)
+        if k in (0, 1, 2):
+            self.ov = k
+        elif k == 3:
+            self.ov_count += 1
+            if self.ov_count > 1:
+                return
+            self.ov_saved, self.ov = self.ov, 0
+        else:
+            self.ov_count -= 1
+            if self.ov_count > 0:
+                return
+            self.ov = self.ov_saved
+
+    def note_alloc(self, a, form):
+        self.alloc_info[a] = (form, len(self.ov_hist))
+
+    def note_release(self, p, form):
+        if p in self.blocks and p in self.alloc_info:
+            af, n = self.alloc_info[p]
+            self.form_log.append((af, form, tuple(self.ov_hist[:n]), tuple(self.ov_hist[n:]), self.ov))
+
     def apply(self, o):
         k = o[0]
         if k == ":a":
-            self.alloc(int(o[1], 16), int(o[2], 16), int(o[3], 16), int(o[4], 16))
+            e = int(o[1], 16)
+            assert e > 2 or self.ov != 0, "entry point used while the overloads are off"
+            self.alloc(e, int(o[2], 16), int(o[3], 16), int(o[4], 16))
+            self.note_alloc(int(o[3], 16), PLAIN_AFORM[e] if e <= 2 else None)
+        elif k == ":A":
+            f = int(o[1], 16)
+            assert 0 <= f < len(AFORM_FAM) and self.ov != 0 and (f not in (11, 12) or int(o[4], 16) >= 1), o
+            self.alloc(AFORM_FAM[f], int(o[2], 16), int(o[3], 16), int(o[4], 16))
+            self.note_alloc(int(o[3], 16), f)
         elif k == ":f":
-            return self.free(int(o[1], 16), int(o[2], 16), optp(o[3]))
+            e = int(o[1], 16)
+            assert e > 2 or self.ov != 0, "entry point used while the overloads are off"
+            self.note_release(optp(o[3]), PLAIN_RFORM[e] if e <= 2 else None)
+            return self.free(e, int(o[2], 16), optp(o[3]))
+        elif k == ":F":
+            f = int(o[1], 16)
+            assert 0 <= f < len(RFORM_FAM) and self.ov != 0, o
+            self.note_release(optp(o[3]), f)
+            return self.free(RFORM_FAM[f], int(o[2], 16), optp(o[3]))
         elif k == ":r":
-            return self.realloc(int(o[1], 16), optp(o[2]), int(o[3], 16), int(o[4], 16))
+            assert self.ov != 0, "realloc while the overloads are off"
+            self.note_release(optp(o[2]), "r")
+            c = self.realloc(int(o[1], 16), optp(o[2]), int(o[3], 16), int(o[4], 16))
+            if int(o[3], 16) in self.blocks:
+                self.note_alloc(int(o[3], 16), "r")
+            return c
+        elif k == ":o":
+            assert 0 <= int(o[1], 16) <= 4
+            self.switch(int(o[1], 16))
         elif k == ":w":
             self.write(int(o[1], 16), list(bytes.fromhex(o[2][1:])))
         elif k == ":t":
@@ -208,7 +290,18 @@ class Sim:
             self.stage = (self.stage + (1 if o[1] != "0" else 255)) % 256
         elif k == ":m":
             self.ts = int(o[1] != "0")
+            self.switch(2 if self.ts else 1)
         return None
+
+
+AFORM_FAM = [0, 0, 0, 0, 1, 1, 1, 1, 2, 2, 2, 2, 2]
+RFORM_FAM = [0, 0, 0, 0, 0, 1, 1, 1, 1, 1, 2, 2]
+PLAIN_AFORM, PLAIN_RFORM = [0, 4, 8], [0, 5, 10]
+AFORM_NAMES = ["new", "new-nothrow", "new-file-int", "new-file-size_t", "new[]", "new[]-nothrow", "new[]-file-int", "new[]-file-size_t",
+               "malloc", "malloc_location", "calloc", "strdup", "strndup"]
+RFORM_NAMES = ["delete", "delete-sized", "delete-nothrow", "delete-file-int", "delete-file-size_t", "delete[]", "delete[]-sized",
+               "delete[]-nothrow", "delete[]-file-int", "delete[]-file-size_t", "free", "free_location"]
+SWITCH_NAMES = ["off", "default", "threadsafe", "save", "restore"]
 
 
 def expected(s):
@@ -266,6 +359,18 @@ def St(up):
 
 def M(ts):
     return [":m", "1" if ts else "0"]
+
+
+def AF(form, al, a, n):
+    return [":A", "%x" % form, "%x" % al, "%x" % a, "%x" % n]
+
+
+def FF(form, al, p):
+    return [":F", "%x" % form, "%x" % al, "~" if p is None else "%x" % p]
+
+
+def O(k):
+    return [":o", "%x" % k]
 
 
 # every way of putting the detector into a period (from any period): disabled, enabled, checking
@@ -481,6 +586,128 @@ def gen_env(tier, rng, out):
                         out.append(mk(j % 3 == 0, ops))
 
 
+
+# switch histories that leave the overloads ON (0 off, 1 default, 2 thread-safe, 3 save, 4 restore); [] = the static initial wiring
+HIST_BEFORE = [[], [1], [2], [0, 1], [0, 2], [2, 1], [1, 2], [3, 4], [1, 3, 4], [2, 3, 4], [2, 1, 3, 4], [3, 1, 4], [3, 2, 4], [3, 3, 4, 4],
+               [3, 2, 3, 4, 4], [4], [4, 3, 4], [3, 1], [0, 3, 2], [2, 0, 3, 4, 1], [3, 4, 3, 4], [1, 3, 0, 4], [2, 3, 3, 1, 4, 0, 4]]
+HIST_BETWEEN = [[], [2], [1], [0, 1], [0, 2], [3, 4], [3, 2], [4], [3, 3, 4, 4], [0, 3, 4, 2]]
+ALL_RELEASES = list(range(12)) + ["r"]
+
+
+_HIST_ON = {}
+
+
+def hist_on(before, between=()):
+    """do both moments (after `before`, after `before + between`) have the overloads on?"""
+    key = (tuple(before), tuple(between))
+    if key not in _HIST_ON:
+        _HIST_ON[key] = _hist_on(before, between)
+    return _HIST_ON[key]
+
+
+def _hist_on(before, between):
+    sim = Sim(0, DS)
+    for k in before:
+        sim.switch(k)
+    if sim.ov == 0:
+        return False
+    for k in between:
+        sim.switch(k)
+    return sim.ov != 0
+
+
+def form_case(j, af, rel, before, between, tc, n, jump, al_a=None, al_r=None, extra=None):
+    """one block: allocated through form af after `before`, released through rel after `between`"""
+    fa = AFORM_FAM[af]
+    fr = 2 if rel == "r" else RFORM_FAM[rel]
+    al_a = NATURAL[fa][0] if al_a is None else al_a
+    al_r = NATURAL[fr][0] if al_r is None else al_r
+    if af in (11, 12):
+        n = max(n, 1)
+    a = slot(j % NSLOTS)
+    ops = [O(k) for k in before]
+    if not tc:
+        ops.insert(j % (len(ops) + 1), T(0))
+    ops.append(AF(af, al_a, a, n))
+    if n and j % 3 == 0:
+        ops.append(Wr(a, [0x11] * min(n, 16)))
+    if extra == "guard":
+        ops.append(Wr(a + n + j % G, [0x00]))
+    ops += [O(k) for k in between]
+    if rel == "r":
+        na = slot((j + 17) % NSLOTS)
+        ops.append(R(al_r, a, na, (n + 3) % 40))
+        ops.append(FF(10 + j % 2, al_r, na))          # whatever realloc made is released by free
+    else:
+        ops.append(FF(rel, al_r, a))
+    if j % 4 == 0:
+        ops.append(FF(RELEASE_OF_FAM[fa][j % len(RELEASE_OF_FAM[fa])], al_a, a))   # stale by now: non-allocated, through another form
+    return mk(jump, ops)
+
+
+RELEASE_OF_FAM = {0: [0, 1, 2, 3, 4], 1: [5, 6, 7, 8, 9], 2: [10, 11]}
+
+
+def gen_forms(tier, rng, out):
+    """every allocating form x every releasing form (and realloc) x every switch history before the allocation (x histories between the
+    two), type checking on/off, under the initial static wiring and everything the five switches can make of it"""
+    thorough = tier == "thorough"
+    j = 0
+    sizes = [0, 1, 2, 5, 8, 20, 64]
+    for hi, before in enumerate(HIST_BEFORE):
+        for af in range(13):
+            for ri, rel in enumerate(ALL_RELEASES):
+                # quick: half of the product, laid out so that every (form, form) pair meets 11-12 of the histories, every (form, history)
+                # pair 6-7 forms of the other side; the nothrow forms (the rarely used ones) keep the full product
+                if not thorough and (hi + af + ri) % 2 and af not in (1, 5) and rel not in (2, 7):
+                    continue
+                betweens = [b for b in HIST_BETWEEN if hist_on(before, b)]
+                if not thorough:
+                    betweens = [betweens[(hi + af + ri) % len(betweens)]]
+                else:
+                    betweens = [betweens[(hi + af + ri + d) % len(betweens)] for d in (0, 3, 7)]
+                for between in betweens:
+                    for tc in ((1, 0) if thorough else (0 if (j % 5 == 4) else 1,)):
+                        j += 1
+                        extra = "guard" if j % 11 == 0 else None
+                        out.append(form_case(j, af, rel, before, between, tc, sizes[j % len(sizes)], j % 6 == 0, extra=extra))
+    # the allocator objects on either side: wrappers, second objects, custom names -- through the rarely used forms
+    for af in (1, 3, 5, 6, 9, 10, 11, 12):
+        for rel in (1, 2, 4, 6, 7, 8, 11, "r"):
+            for before in ([], [2, 1], [1, 3, 4], [0, 2]):
+                j += 1
+                fa, fr = AFORM_FAM[af], (2 if rel == "r" else RFORM_FAM[rel])
+                al_a = rng.choice(PLAIN_LIKE if j % 2 else NATURAL[fa])
+                al_r = rng.choice(PLAIN_LIKE if j % 3 else NATURAL[fr])
+                out.append(form_case(j, af, rel, before, HIST_BETWEEN[j % 5] if hist_on(before, HIST_BETWEEN[j % 5]) else [], j % 4 != 0, rng.choice(sizes), j % 5 == 0, al_a, al_r))
+    # several blocks alive at once, one per allocating form, released in another order through rotating forms; switches in between
+    for rot in range(13 if thorough else 4):
+        for before in (HIST_BEFORE if thorough else [HIST_BEFORE[(rot * 5 + 1) % len(HIST_BEFORE)], HIST_BEFORE[(rot * 7 + 5) % len(HIST_BEFORE)]]):
+            j += 1
+            ops = [O(k) for k in before]
+            blocks = []
+            for af in range(13):
+                a = slot((j + af * 3) % NSLOTS)
+                n = max(1, (af * 7 + rot) % 30)
+                ops.append(AF(af, NATURAL[AFORM_FAM[af]][0], a, n))
+                blocks.append((af, a))
+                if af % 4 == rot % 4:
+                    sw = HIST_BETWEEN[(af + rot) % len(HIST_BETWEEN)]
+                    sim = Sim(0, DS)
+                    for o in ops:
+                        if o[0] == ":o":
+                            sim.switch(int(o[1], 16))
+                    for k in sw:
+                        sim.switch(k)
+                    if sim.ov != 0:
+                        ops += [O(k) for k in sw]
+            order = blocks[rot:] + blocks[:rot]
+            for i, (af, a) in enumerate(order):
+                rel = ALL_RELEASES[(i * 5 + rot) % 12]
+                ops.append(FF(rel, NATURAL[RFORM_FAM[rel]][0], a))
+            out.append(mk(j % 2, ops))
+
+
 def gen_random(tier, rng, out, count):
     for _ in range(count):
         jump = rng.random() < 0.4
@@ -489,6 +716,8 @@ def gen_random(tier, rng, out, count):
         info = {}      # addr -> (e, al)
         dead = []
         envy = rng.choice([0.0, 0.08, 0.2])       # how often the environment moves
+        switchy = rng.choice([0.0, 0.1, 0.25])    # how often the overloads are switched
+        formy = rng.choice([0.0, 0.5, 1.0])       # how often a form other than the plain one is used
         if rng.random() < 2 / 3:
             for o in route(rng.randrange(3), rng.randrange(4), True):
                 sim.apply(o)
@@ -499,6 +728,16 @@ def gen_random(tier, rng, out, count):
                 o = random_env_op(rng)
                 sim.apply(o)
                 ops.append(o)
+            if rng.random() < switchy:
+                o = O(rng.choice([0, 1, 2, 3, 4, 3, 4, 1, 2]))
+                sim.apply(o)
+                ops.append(o)
+                if sim.ov == 0 and rng.random() < 0.7:      # mostly come back on soon (the operations in between are direct ones)
+                    for _ in range(rng.randrange(0, 3)):
+                        if sim.ov == 0:
+                            o = O(rng.choice([1, 2, 4, 3]))
+                            sim.apply(o)
+                            ops.append(o)
             r = rng.random()
             o = None
             if r < 0.28 or not live:
@@ -511,6 +750,8 @@ def gen_random(tier, rng, out, count):
                         continue
                     n = rng.choice([0, 1, 2, 3, 4, 7, 8, 9, 16, 33, 64, 80, rng.randrange(0, 200)])
                     o = A(e, al, a, n)
+                    if e <= 2 and rng.random() < formy:
+                        o = AF(rng.choice([f for f in range(13) if AFORM_FAM[f] == e]), al, a, max(n, 1))
                     info[a] = (e, al)
             elif r < 0.55:
                 a = rng.choice(live)
@@ -548,6 +789,8 @@ def gen_random(tier, rng, out, count):
                     info[na] = (2, al)
                 else:
                     o = F(e, al, p)
+                    if e <= 2 and rng.random() < formy:
+                        o = FF(rng.choice([f for f in range(12) if RFORM_FAM[f] == e]), al, p)
                 if p in sim.blocks:
                     dead.append(p)
             if o is None:
@@ -558,9 +801,15 @@ def gen_random(tier, rng, out, count):
                 continue
             ops.append(o)
         # release what is left, pairwise
+        if sim.ov == 0:
+            o = O(rng.choice([1, 2]))
+            sim.apply(o)
+            ops.append(o)
         for a in list(sim.blocks.keys()):
             e, al = info[a]
             o = F(e, al, a)
+            if e <= 2 and rng.random() < formy:
+                o = FF(rng.choice([f for f in range(12) if RFORM_FAM[f] == e]), al, a)
             sim.apply(o)
             ops.append(o)
         out.append(unparse(int(jump), DS, ops))
@@ -574,6 +823,7 @@ def generate(tier, rng):
     gen_addresses(tier, rng, out)
     out[:] = [decorate(s, rng) for s in out]
     gen_env(tier, rng, out)
+    gen_forms(tier, rng, out)
     gen_random(tier, rng, out, 400 if tier == "quick" else 50000)
     bad = [s for s in out if expected(s) is None]
     assert not bad, "generator produced an invalid scenario: " + bad[0]
@@ -582,7 +832,7 @@ def generate(tier, rng):
 
 def nontrivial(s):
     _, _, ops = parse(s)
-    return any(o[0] in (":f", ":r") and (o[3] if o[0] == ":f" else o[2]) != "~" for o in ops)
+    return any(o[0] in (":f", ":F", ":r") and (o[3] if o[0] != ":r" else o[2]) != "~" for o in ops)
 
 
 def classify(s):
@@ -605,9 +855,28 @@ def classify(s):
                     lab.add("stage:changed-between-alloc-and-release")
                 if st[2] != now[2]:
                     lab.add("typecheck:switched-between-alloc-and-release")
+        for af, rf, before, between, flav in sim.form_log:
+            if af is not None and rf is not None:
+                an = "realloc" if af == "r" else AFORM_NAMES[af]
+                rn = "realloc" if rf == "r" else RFORM_NAMES[rf]
+                lab.add("form-pair:%s>%s" % (an, rn))
+                lab.add("alloc-form:%s after [%s]" % (an, ",".join(SWITCH_NAMES[k] for k in before[-4:]) if before else "initial wiring"))
+                lab.add("release-form:%s under %s" % (rn, SWITCH_NAMES[flav]))
+            lab.add("switches-before-alloc:" + ("none(initial wiring)" if not before else ",".join(SWITCH_NAMES[k] for k in before[-5:])))
+            if between:
+                lab.add("switches-between-alloc-and-release:" + ",".join(SWITCH_NAMES[k] for k in between[-5:]))
     except (AssertionError, IndexError, KeyError, ValueError):
         pass
     for o in ops:
+        if o[0] == ":A":
+            lab.add("alloc:" + ENTRY_NAMES[AFORM_FAM[int(o[1], 16)]])
+            lab.add("size:" + ("0" if int(o[4], 16) == 0 else "1-8" if int(o[4], 16) <= 8 else "9-64" if int(o[4], 16) <= 64 else ">64"))
+        elif o[0] == ":F":
+            lab.add("release:" + RELEASE_NAMES[RFORM_FAM[int(o[1], 16)]])
+            if o[3] == "~":
+                lab.add("release:NULL")
+        elif o[0] == ":o":
+            lab.add("switch:" + SWITCH_NAMES[int(o[1], 16)])
         if o[0] == ":a":
             lab.add("alloc:" + ENTRY_NAMES[int(o[1], 16)])
             lab.add("size:" + ("0" if int(o[4], 16) == 0 else "1-8" if int(o[4], 16) <= 8 else "9-64" if int(o[4], 16) <= 64 else ">64"))
@@ -619,7 +888,7 @@ def classify(s):
             lab.add("release:realloc")
         elif o[0] == ":t":
             lab.add("typecheck:" + ("on" if o[1] != "0" else "off"))
-        if o[0] in (":a", ":f", ":r"):
+        if o[0] in (":a", ":f", ":r", ":A", ":F"):
             al = int(o[2] if o[0] != ":r" else o[1], 16)
             if ds[al][0] != "p":
                 lab.add("wrapper:" + {"k": "accounting", "l": "leakallocator"}[ds[al][0]])
@@ -652,9 +921,9 @@ def signature(s, obs):
     if ex is None or it is None or len(ex) != len(it):
         return "shape"
     _, _, ops = parse(s)
-    rel = [o for o in ops if o[0] in (":f", ":r")]
+    rel = [o for o in ops if o[0] in (":f", ":F", ":r")]
     for o, c, x in zip(rel, ex, it):
-        how = "realloc" if o[0] == ":r" else RELEASE_NAMES[int(o[1], 16)]
+        how = "realloc" if o[0] == ":r" else RELEASE_NAMES[int(o[1], 16)] if o[0] == ":f" else RFORM_NAMES[int(o[1], 16)]
         if x[1] != c or x[0] != (1 if c else 0):
             return "category:%s:expected=%d:got=%d/%d" % (how, c, x[1], x[0])
         if any(b != "~" and set(b[1:][k:k + 2] for k in range(0, len(b) - 1, 2)) - {"cd"} for _, b in x[2]):
@@ -666,7 +935,7 @@ def prune_descs(jump, ds, ops):
     """drop allocator objects no operation reaches (directly or through a wrapper) and renumber"""
     used = set()
     for o in ops:
-        if o[0] in (":a", ":f"):
+        if o[0] in (":a", ":f", ":A", ":F"):
             used.add(int(o[2], 16))
         elif o[0] == ":r":
             used.add(int(o[1], 16))
@@ -684,7 +953,7 @@ def prune_descs(jump, ds, ops):
     nops = []
     for o in ops:
         o = list(o)
-        if o[0] in (":a", ":f"):
+        if o[0] in (":a", ":f", ":A", ":F"):
             o[2] = "%x" % ren[int(o[2], 16)]
         elif o[0] == ":r":
             o[1] = "%x" % ren[int(o[1], 16)]
@@ -702,6 +971,26 @@ def shrink(s):
         yield unparse(jump, ds, ops[:i] + ops[i + 1:])
     if jump:
         yield unparse(0, ds, ops)
+    # a run of overload switches replaced by the single switch that installs the same overloads (then by none)
+    for i, o in enumerate(ops):
+        if o[0] in (":o", ":m"):
+            j = i
+            while j < len(ops) and ops[j][0] in (":o", ":m"):
+                j += 1
+            if j - i >= 2:
+                for k in (1, 2):
+                    yield unparse(jump, ds, ops[:i] + [O(k)] + ops[j:])
+                yield unparse(jump, ds, ops[:i] + ops[j:])
+    # a special form replaced by the plain form of its family
+    for i, o in enumerate(ops):
+        if o[0] == ":A" and int(o[1], 16) not in PLAIN_AFORM:
+            yield unparse(jump, ds, ops[:i] + [[":A", "%x" % PLAIN_AFORM[AFORM_FAM[int(o[1], 16)]]] + o[2:]] + ops[i + 1:])
+        if o[0] == ":F" and int(o[1], 16) not in PLAIN_RFORM:
+            yield unparse(jump, ds, ops[:i] + [[":F", "%x" % PLAIN_RFORM[RFORM_FAM[int(o[1], 16)]]] + o[2:]] + ops[i + 1:])
+    # smaller blocks
+    for i, o in enumerate(ops):
+        if o[0] in (":a", ":A") and int(o[4], 16) > 1:
+            yield unparse(jump, ds, ops[:i] + [o[:4] + ["1"]] + ops[i + 1:])
     # shorter write payloads (from the back / from the front)
     for i, o in enumerate(ops):
         if o[0] == ":w" and len(o[2]) > 3:
@@ -710,7 +999,7 @@ def shrink(s):
             yield unparse(jump, ds, ops[:i] + [[":w", "%x" % (int(o[1], 16) + 1), tb(b[1:])]] + ops[i + 1:])
     # a release through a wrapper / second object replaced by the plain allocator it stands for
     for i, o in enumerate(ops):
-        k = 2 if o[0] in (":a", ":f") else 1 if o[0] == ":r" else None
+        k = 2 if o[0] in (":a", ":f", ":A", ":F") else 1 if o[0] == ":r" else None
         if k is not None:
             al = int(o[k], 16)
             if al < len(ds) and ds[al][0] == "k":
